@@ -20,6 +20,7 @@ type joinScenario struct {
 	icap       int
 	closeAfter time.Duration
 	stopAt     time.Duration
+	capExtra   int
 	prod       [][2]int64 // (delay, len)
 	cons       [][2]int64 // (hold, pause)
 }
@@ -35,7 +36,8 @@ func decodeJoin(sc scenario) joinScenario {
 		closeAfter: time.Duration(sc.i64(7)),
 		stopAt:     time.Duration(sc.i64(8)),
 	}
-	pos := 10
+	js.capExtra = sc.int(10)
+	pos := 11
 	n := sc.int(pos)
 	for i := 0; i < n; i += 2 {
 		js.prod = append(js.prod, [2]int64{sc.i64(pos + 1 + i), sc.i64(pos + 2 + i)})
@@ -251,7 +253,7 @@ func runJoinBubble(js joinScenario) result {
 		next := 1
 		for _, p := range js.prod {
 			time.Sleep(time.Duration(p[0]))
-			vals := make([]int, p[1])
+			vals := make([]int, p[1], int(p[1])+js.capExtra)
 			for i := range vals {
 				vals[i] = next
 				next++
